@@ -52,8 +52,11 @@ fn run_sub(check: &'static str, wall_cap: Duration) -> Result<SubRun, String> {
     let start = Instant::now();
     let mut child = Command::new(asan_bin())
         .args([check, "--tier", "quick"])
+        .env_remove("VERIF_CHILD")
+        .env_remove("VERIF_INFLIGHT")
+        .env_remove("VERIF_SKIP_FILE")
         .env("VERIF_ROOT", &root)
-        .env("ASAN_OPTIONS", format!("abort_on_error=1:detect_leaks=0:handle_segv=1:log_path={}", root.join("asan").join("report").display()))
+        .env("ASAN_OPTIONS", format!("abort_on_error=1:detect_leaks=0:handle_segv=1:allocator_may_return_null=1:malloc_context_size=0:quarantine_size_mb=32:log_path={}", root.join("asan").join("report").display()))
         .env("RUST_BACKTRACE", "0")
         .stdout(Stdio::piped())
         .stderr(Stdio::null())
@@ -86,6 +89,9 @@ fn run_sub(check: &'static str, wall_cap: Duration) -> Result<SubRun, String> {
         files.sort_by_key(|p| std::fs::metadata(p).and_then(|m| m.modified()).ok());
         for f in files {
             if let Ok(t) = std::fs::read_to_string(&f) {
+                if !t.contains("ERROR: AddressSanitizer") {
+                    continue; // warnings only (e.g. a refused allocation request)
+                }
                 let (k, fr) = parse_report(&t);
                 reports.push((format!("{k}|{fr}"), t.lines().take(12).collect::<Vec<_>>().join("\n")));
             }
@@ -103,8 +109,8 @@ pub fn run(tier: Tier) -> i32 {
         return rep.finish();
     }
     let (subs, cap): (Vec<&'static str>, u64) = match tier {
-        Tier::Quick => (vec!["C06", "C07", "C08", "C10", "C19"], 600),
-        Tier::Thorough => (vec!["C01", "C03", "C05", "C06", "C07", "C08", "C09", "C10", "C11", "C12", "C13", "C17", "C19", "C20", "C04"], 3600),
+        Tier::Quick => (vec!["C10", "C06"], 900),
+        Tier::Thorough => (vec!["C01", "C03", "C05", "C06", "C07", "C08", "C09", "C10", "C11", "C12", "C13", "C17", "C19", "C20", "C04"], 7200),
     };
     let mut total = 0u64;
     let mut per = Vec::new();
@@ -117,6 +123,9 @@ pub fn run(tier: Tier) -> i32 {
                 total += r.evaluations;
                 if r.timed_out {
                     rep.machinery_errors.push(format!("the sanitizer run of {s} exceeded {cap} s and was stopped"));
+                }
+                if r.evaluations == 0 && !r.timed_out {
+                    rep.machinery_errors.push(format!("the sanitizer run of {s} executed nothing (child exit {:?})", r.exit));
                 }
                 if r.exit == Some(2) {
                     rep.machinery_errors.push(format!("the sanitizer run of {s} ended with a machinery failure (exit 2)"));
@@ -138,11 +147,12 @@ pub fn run(tier: Tier) -> i32 {
     }
     rep.cov("evaluations", json!(total));
     rep.cov("distinct_nontrivial", json!(total));
-    rep.cov("rule", json!("every execution of the quick enumeration of the listed checks (joins, aggregates, sorts, Parquet reads, malformed Parquet/CSV; thorough: all statement-level checks and the schedule explorers) is repeated on an AddressSanitizer build (engine + harness, debug assertions and overflow checks on); non-trivial = executed under the sanitizer (counted from the sub-run's own evidence). Functional verdicts of the sub-runs belong to their own properties and are ignored here; only sanitizer reports count"));
+    rep.cov("rule", json!("every execution of the quick enumeration of the listed checks (quick: valid Parquet files, joins; thorough: all statement-level checks and the schedule explorers) is repeated on an AddressSanitizer build (engine + harness, debug assertions and overflow checks on); non-trivial = executed under the sanitizer (counted from the sub-run's own evidence). Functional verdicts of the sub-runs belong to their own properties and are ignored here; only sanitizer reports count"));
     rep.cov("per_enumeration", json!(per));
     rep.cov("distinct_outcomes", json!(kinds.into_iter().collect::<Vec<_>>()));
     rep.cov("samples", json!(samples));
     rep.cov("exhaustive", json!(true));
+    rep.assume("allocator_may_return_null=1: an absurd allocation request (known under C19 as resource blow-up) fails like in the normal build instead of being reported by the sanitizer");
     rep.assume("AddressSanitizer detects out-of-bounds, use-after-free and double free on instrumented code (engine and harness; std is not instrumented); reads of uninitialised memory and misalignment are not detected by it");
     rep.assume("data races are not decided here: the thread-level explorer serialises threads; the race clause of C16 is not claimed");
     rep.finish()
